@@ -534,6 +534,16 @@ pub struct Body {
     pub silent_step: bool,
     /// async bodies: block (synchronously, inside the first poll) on this gate before anything is awaited
     pub hold: Option<BGate>,
+    /// panicking bodies: run from a destructor while the operation's panic unwinds (a clean-up guard owned by the closure)
+    pub on_unwind: Option<Arc<dyn Fn() + Send + Sync>>,
+}
+
+/// A value owned by a panicking operation whose destructor does something (uses another object) during the unwinding
+struct UnwindGuard(Arc<dyn Fn() + Send + Sync>);
+impl Drop for UnwindGuard {
+    fn drop(&mut self) {
+        (self.0)()
+    }
 }
 
 impl Body {
@@ -566,6 +576,7 @@ impl Body {
             a();
         }
         if self.panic {
+            let _guard = self.on_unwind.clone().map(UnwindGuard);
             st.exit_named(name);
             rec.end(op, false);
             panic!("PLANNED-PANIC in {}", name);
@@ -740,6 +751,7 @@ async fn run_async(body: Body, rec: Arc<Rec>, op: OpId, st: Arc<ObjState>, name:
         a();
     }
     if body.panic {
+        let _guard = body.on_unwind.clone().map(UnwindGuard);
         panic!("PLANNED-PANIC in {}", name);
     }
     span.done = true;
